@@ -24,7 +24,8 @@ import re
 import common as C
 
 A = "alice@example.com"
-CLASSES = {1: "dedup_encoding", 2: "config_mismatch", 3: "read_fault_empty"}
+CLASSES = {1: "dedup_encoding"}
+NO = "NO"   # FETCH answered with a tagged NO
 BOUNDARY = "=_c15bnd"
 
 
@@ -308,6 +309,7 @@ def compile_scenario(steps, rng, parsed_of):
     nmsg = 0
     msgs = []   # per stored message: (single, nparts_rows)
     tagc = [0]
+    locked = False
 
     def tag():
         tagc[0] += 1
@@ -349,6 +351,9 @@ def compile_scenario(steps, rng, parsed_of):
                 add({"op": "s3_lose"}, ("lose", None))
             else:
                 add({"op": "s3_lose", "keys": [sha(x) for x in st[1]]}, ("lose", st[1]))
+        elif st[0] == "dblock":
+            locked = bool(st[1])
+            add({"op": "db_lock" if locked else "db_unlock"})
         elif st[0] == "store":
             _, side, script, parts, single = st
             raw = mk_message(parts, single, "m%d" % nmsg)
@@ -361,13 +366,13 @@ def compile_scenario(steps, rng, parsed_of):
                 add({"op": "send", "conn": l, "data": "RCPT TO:<%s>\r\n" % A, "until": "lmtp:1"})
                 add({"op": "send", "conn": l, "data": "DATA\r\n", "until": "lmtp:1"})
                 add({"op": "send", "conn": l, "data": C.latin(raw) + ".\r\n", "until": "lmtp:1", "timeout_ms": 20000},
-                    ("stored", nmsg, side, cfg[side], script, raw, "250"))
+                    ("stored", nmsg, side, cfg[side], script, raw, "250", locked))
                 add({"op": "send", "conn": l, "data": "QUIT\r\n", "until": "lmtp:1"})
             else:
                 t = tag()
                 add({"op": "send", "conn": "c", "data": "%s APPEND INBOX {%d}\r\n" % (t, len(raw)), "until": "cont:" + t})
                 add({"op": "send", "conn": "c", "data": C.latin(raw) + "\r\n", "until": "tag:" + t, "timeout_ms": 20000, "only_if_cont": True},
-                    ("stored", nmsg, side, cfg[side], script, raw, t + " OK"))
+                    ("stored", nmsg, side, cfg[side], script, raw, t + " OK", locked))
             add({"op": "s3_script", "script": []})
             add({"op": "s3_state"}, ("storelog",))
             msgs.append((single, len(parsed_of(raw))))
@@ -390,11 +395,19 @@ def compile_scenario(steps, rng, parsed_of):
     return ops, plan
 
 
-def parse_fetch(recv, item):
-    """payload of one FETCH item: bytes, b'' for NIL, None when the response has no such item / is not OK"""
+def parse_fetch(recv, item, tag):
+    """payload of one FETCH item: bytes (b'' for NIL), NO when the command was answered
+    with a tagged NO, None when the response is neither"""
     b = C.unlatin(recv)
+    tagged = [l for l in b.split(b"\r\n") if l.startswith(tag.encode() + b" ")]
+    if not tagged:
+        return None
+    if tagged[-1].startswith(tag.encode() + b" NO"):
+        return NO
+    if not tagged[-1].startswith(tag.encode() + b" OK"):
+        return None
     m = re.search(re.escape(item.encode()) + rb" (\{(\d+)\}\r\n|NIL)", b)
-    if not m or b" OK " not in b.split(b"\r\n")[-2] + b" ":
+    if not m:
         return None
     if m.group(1) == b"NIL":
         return b""
@@ -537,7 +550,7 @@ def judge_scenarios(chk, scen, rng, corpus_expect=None):
                 i += 1
                 continue
             if p[0] == "stored":
-                _, m, side, writer_s3, script, raw, expect = p
+                _, m, side, writer_s3, script, raw, expect, dblocked = p
                 parts = parsed_of(raw)
                 recv = o.get("recv", "")
                 if o.get("skipped") or expect not in recv:
@@ -550,7 +563,7 @@ def judge_scenarios(chk, scen, rng, corpus_expect=None):
                 while plan[j] is None or plan[j][0] != "storelog":
                     j += 1
                 evlog = effective(obs[j].get("log") or [])
-                evs.append("EStore %s %s [] %s" % (C.coq_bool(writer_s3), oracle_of(evlog), C.coq_list(
+                evs.append("EStore %s %s %s %s" % (C.coq_bool(writer_s3), oracle_of(evlog), C.coq_list(["OFail"] * len(parts) if dblocked else []), C.coq_list(
                     ["mkPart %s %s %s" % (T(enc), T(content), C.coq_bool(named)) for (enc, content, named, _) in parts])))
             elif p[0] == "lose":
                 if p[1] is None:
@@ -563,10 +576,10 @@ def judge_scenarios(chk, scen, rng, corpus_expect=None):
                 glog = effective(obs[i + 1].get("log") or [])
                 if p[0] == "read":
                     _, m, k, reader, script, t, item = p
-                    reads.append((len(evs), reader, m, k, script, parse_fetch(o.get("recv", ""), item), glog, item))
+                    reads.append((len(evs), reader, m, k, script, parse_fetch(o.get("recv", ""), item, t), glog, item))
                 else:
                     _, m, reader, script, t, single = p
-                    readalls.append((len(evs), reader, m, script, parse_fetch(o.get("recv", ""), "BODY[]"), glog, single))
+                    readalls.append((len(evs), reader, m, script, parse_fetch(o.get("recv", ""), "BODY[]", t), glog, single))
             elif p[0] == "blobs":
                 blobs = o.get("rows") or []
             elif p[0] == "rows":
@@ -625,12 +638,12 @@ def judge_scenarios(chk, scen, rng, corpus_expect=None):
             len(evs), pfx, C.coq_list(oobjs), pfx, C.coq_list([req(s) for s in storelog]), pfx, pfx)
         rc = []
         for (n, reader, m, k, script, impl, glog, item) in reads:
-            impl_t = T(impl if impl is not None else b"?no FETCH data")
+            impl_t = "None" if impl is NO else "(Some %s)" % T(impl if impl is not None else b"?no FETCH data")
             rc.append("read_code (wat ws %d) %s %d %d %s %s %s" % (n, C.coq_bool(reader), m, k, oracle_of(glog), impl_t, C.coq_list([req(s) for s in glog])))
         ra = []
         for (n, reader, m, script, impl, glog, single) in readalls:
             nrows = len(sent[m]) if m < len(sent) else 0
-            if impl is None:
+            if impl is None or impl is NO:
                 obsl = None
             elif single:
                 j = impl.find(b"\r\n\r\n")
@@ -638,8 +651,10 @@ def judge_scenarios(chk, scen, rng, corpus_expect=None):
             else:
                 segs = split_multipart(impl)
                 obsl = None if segs is None or len(segs) != nrows - 1 else [b""] + segs
-            if obsl is None:
-                ol = C.coq_list(["Some %s" % T(b"?unparseable BODY[]")] * max(nrows, 1))
+            if impl is NO:
+                ol = "None"
+            elif obsl is None:
+                ol = "(Some %s)" % C.coq_list(["Some %s" % T(b"?unparseable BODY[]")] * max(nrows, 1))
             else:
                 items = []
                 for ri, x in enumerate(obsl):
@@ -648,11 +663,12 @@ def judge_scenarios(chk, scen, rng, corpus_expect=None):
                         items.append("None")
                     else:
                         items.append("Some %s" % T(x))
-                ol = C.coq_list(items)
+                ol = "(Some %s)" % C.coq_list(items)
             w = "(wat ws %d)" % n
-            ra.append("(if read_all_ok %s %s %d %s %s %s %s then 0 else 1) + (if msg_class %s %s %d %s then 2 else 0)" % (
+            ra.append("(if read_all_ok %s %s %d %s %s %s %s then 0 else 1) + (if msg_class %s %d then 2 else 0) + (if %s then 0 else 4)" % (
                 w, C.coq_bool(reader), m, oracle_of(glog), C.coq_bool(not single), ol, C.coq_list([req(s) for s in glog]),
-                w, C.coq_bool(reader), m, oracle_of(glog)))
+                w, m,
+                ("msg_failed %s %s %d %s" % (w, C.coq_bool(reader), m, oracle_of(glog))) if impl is NO else "true"))
         d.append("Definition %s_res := Eval vm_compute in let ws := worlds %s_evs in (%s ++ %s ++ %s)%%list." % (
             pfx, pfx, stt, C.coq_list(rc) if rc else "(@nil nat)", C.coq_list(ra) if ra else "(@nil nat)"))
         d.append("Print %s_res." % pfx)
@@ -706,7 +722,7 @@ def judge_scenarios(chk, scen, rng, corpus_expect=None):
             distinct.add((si, n, reader, m, k, tuple(script)))
             disagree, viol, cls = code & 1, (code >> 1) & 1, code >> 2
             descr = "FETCH %d %s by a reader with S3 %s after %d events (script %s) returned %r" % (
-                m + 1, item, "on" if reader else "off", n, script, None if impl is None else impl[:60])
+                m + 1, item, "on" if reader else "off", n, script, None if impl is None else ("a tagged NO" if impl is NO else impl[:60]))
             pl = dict(payload, read={"events": n, "reader_s3": reader, "msg": m, "part": k, "script": script})
             if code >= 99 * 1 and cls > 3:
                 nd += 1
@@ -718,7 +734,8 @@ def judge_scenarios(chk, scen, rng, corpus_expect=None):
                 chk.violation(descr + " instead of the part's own octets", pl, cls=CLASSES[cls])
             elif viol:
                 nd += 1
-                chk.violation(descr + " instead of the part's own octets (outside every listed class)", pl)
+                chk.violation(descr + (" although no backend failed for this read" if impl is NO else
+                                       " instead of the part's own octets or an error (outside every listed class)"), pl)
             elif disagree:
                 if cls in CLASSES:
                     stats["class_mismatch_info"] += 1
@@ -728,7 +745,11 @@ def judge_scenarios(chk, scen, rng, corpus_expect=None):
         for code, r in zip(ra, lay["readalls"]):
             stats["readalls"] += 1
             (n, reader, m, script, impl, glog, single) = r
-            if code & 1:
+            if code & 4:
+                nd += 1
+                chk.violation("FETCH %d BODY[] by a reader with S3 %s after %d events (script %s) was answered NO although no backend failed for any part" % (
+                    m + 1, "on" if reader else "off", n, script), dict(payload, readall={"events": n, "reader_s3": reader, "msg": m, "script": script}))
+            elif code & 1:
                 if code & 2:
                     stats["class_mismatch_info"] += 1
                 else:
